@@ -83,25 +83,31 @@ func (v *VerifC20SPH) PopPN(enc int) int64 { return int64(v.h.PopPacketNumber(ve
 func (v *VerifC20SPH) ReceivedBytes(n, t int64) {
 	v.h.ReceivedBytes(protocol.ByteCount(n), monotime.Time(t))
 }
-func (v *VerifC20SPH) ReceivedPacket(enc int, t int64) { v.h.ReceivedPacket(verifC20Enc(enc), monotime.Time(t)) }
-func (v *VerifC20SPH) DropPackets(enc int, t int64)    { v.h.DropPackets(verifC20Enc(enc), monotime.Time(t)) }
-func (v *VerifC20SPH) LossTimeout() int64              { return int64(v.h.GetLossDetectionTimeout()) }
-func (v *VerifC20SPH) OnLossTimeout(t int64) error     { return v.h.OnLossDetectionTimeout(monotime.Time(t)) }
-func (v *VerifC20SPH) SetMaxDatagramSize(s int64)      { v.h.SetMaxDatagramSize(protocol.ByteCount(s)) }
-func (v *VerifC20SPH) SendMode(t int64) int            { return int(v.h.SendMode(monotime.Time(t))) }
-func (v *VerifC20SPH) Cwnd() int64                     { return int64(v.h.congestion.GetCongestionWindow()) }
-func (v *VerifC20SPH) BytesInFlight() int64            { return int64(v.h.bytesInFlight) }
+func (v *VerifC20SPH) ReceivedPacket(enc int, t int64) {
+	v.h.ReceivedPacket(verifC20Enc(enc), monotime.Time(t))
+}
+func (v *VerifC20SPH) DropPackets(enc int, t int64) {
+	v.h.DropPackets(verifC20Enc(enc), monotime.Time(t))
+}
+func (v *VerifC20SPH) LossTimeout() int64 { return int64(v.h.GetLossDetectionTimeout()) }
+func (v *VerifC20SPH) OnLossTimeout(t int64) error {
+	return v.h.OnLossDetectionTimeout(monotime.Time(t))
+}
+func (v *VerifC20SPH) SetMaxDatagramSize(s int64) { v.h.SetMaxDatagramSize(protocol.ByteCount(s)) }
+func (v *VerifC20SPH) SendMode(t int64) int       { return int(v.h.SendMode(monotime.Time(t))) }
+func (v *VerifC20SPH) Cwnd() int64                { return int64(v.h.congestion.GetCongestionWindow()) }
+func (v *VerifC20SPH) BytesInFlight() int64       { return int64(v.h.bytesInFlight) }
 
 // VerifC20Gate: every input SendMode reads, taken from the handler's own state at time t.
 type VerifC20Gate struct {
-	Tracked                int
-	AmpLimited             bool
-	NumProbes              int
-	PtoMode                int
-	BytesInFlight, Cwnd    int64
-	HasPacingBudget        bool
-	BytesSent, BytesRecvd  int64
-	PeerAddressValidated   bool
+	Tracked               int
+	AmpLimited            bool
+	NumProbes             int
+	PtoMode               int
+	BytesInFlight, Cwnd   int64
+	HasPacingBudget       bool
+	BytesSent, BytesRecvd int64
+	PeerAddressValidated  bool
 }
 
 func (v *VerifC20SPH) Gate(t int64) VerifC20Gate {
@@ -117,6 +123,6 @@ func (v *VerifC20SPH) Gate(t int64) VerifC20Gate {
 		Tracked: n, AmpLimited: h.isAmplificationLimited(), NumProbes: h.numProbesToSend, PtoMode: int(h.ptoMode),
 		BytesInFlight: int64(h.bytesInFlight), Cwnd: int64(h.congestion.GetCongestionWindow()),
 		HasPacingBudget: h.congestion.HasPacingBudget(monotime.Time(t)),
-		BytesSent: int64(h.bytesSent), BytesRecvd: int64(h.bytesReceived), PeerAddressValidated: h.peerAddressValidated,
+		BytesSent:       int64(h.bytesSent), BytesRecvd: int64(h.bytesReceived), PeerAddressValidated: h.peerAddressValidated,
 	}
 }
